@@ -52,17 +52,21 @@ WHERES = [None, "account ~ 'Assets'", "account ~ 'Expenses'", "currency = 'ACME'
           "account ~ 'Broker' OR account ~ 'Income'", "flag = '*' AND NOT account ~ 'Rent'"]
 
 
-def inv_close(a, b):
-    """equal inventories up to the rounding of the 28-digit decimal context (price conversions divide)"""
+def inv_close(a, b, divides=False):
+    """equal inventories up to the rounding of the 28-digit decimal context; with `divides` (price conversions divide) a
+    total that cancels may leave a residue of the last digits on one side only: such a position counts as absent"""
     if a == b:
         return True
     if a is None or b is None:
         return False
     da = {(p.units.currency, p.cost): p.units.number for p in a}
     db = {(p.units.currency, p.cost): p.units.number for p in b}
+    if divides:
+        da = {k: v for k, v in da.items() if abs(v) > Decimal('1e-18')}
+        db = {k: v for k, v in db.items() if abs(v) > Decimal('1e-18')}
     if set(da) != set(db):
         return False
-    return all(abs(da[k] - db[k]) <= abs(da[k]) * Decimal('1e-20') for k in da)
+    return all(abs(da[k] - db[k]) <= max(abs(da[k]) * Decimal('1e-20'), Decimal('1e-18') if divides else 0) for k in da)
 
 
 def sums_layer(ctx, conn):
@@ -121,7 +125,7 @@ def sums_layer(ctx, conn):
                 ctx.evaluations += 1
                 ctx.count('homomorphism-oracle')
                 for acc_name, a, b in res:
-                    if not inv_close(a, b):
+                    if not inv_close(a, b, divides=f.split('(')[0] in ('convert', 'value')):
                         ctx.record_violation('f-of-sum-differs-from-sum-of-f:' + f.split('(')[0], '%s: %s: %s vs %s' % (q, acc_name, a, b),
                                              payload={'query': q})
                         break
